@@ -252,6 +252,49 @@ def pressure_biased_case(seed):
     return HS.gen_case(seed)
 
 
+def worker_pressure(seed):
+    """HTTP/1 through the real TCPServer of both workers (virtual time): the client stops reading in the middle of a
+    response, the application's send parks in the worker's own write path (drain / send_all); then the pressure abates or
+    the connection ends (the client resumes, sends EOF, resets, or sends what makes the server close).  The waiting send
+    returns promptly and the application and the connection handler finish."""
+    from . import c16
+    from . import rworker as W
+    from .c07 import make_cfg
+
+    rng = random.Random(seed)
+    release = rng.choice(["resume", "eof", "reset", "garbage"])
+    size = rng.choice([5000, 70000, 300000])
+    hold = rng.choice([0.5, 2.0])
+    steps = [("send", {"type": "http.response.start", "status": 200, "headers": []}),
+             ("send", {"type": "http.response.body", "body": b"first", "more_body": True}), ("sleep", 1.0),
+             ("send", {"type": "http.response.body", "body": b"x" * size, "more_body": True}),
+             ("send", {"type": "http.response.body", "body": b"last", "more_body": False})]
+    script = [("send", b"POST /u HTTP/1.1\r\nHost: x\r\nTransfer-Encoding: chunked\r\n\r\n3\r\nabc\r\n"), ("sleep", 0.5), ("stall",),
+              ("sleep", 0.5 + hold)]
+    script += {"resume": [("unstall",)], "eof": [("eof",)], "reset": [("reset",)], "garbage": [("send", b"zz\r\n")]}[release]
+    script += [("sleep", 3.0)]
+    t_release = 1.0 + hold
+    desc = {"carrier": "h1-worker", "where": "mid", "release": release, "size": size, "hold": hold}
+    fails = []
+    for backend, run in (("asyncio", W.run_asyncio), ("trio", W.run_trio)):
+        res = run(c16.scripted([steps]), make_cfg(30.0), script, tail=60.0)
+        app = res["app"][0] if res["app"] else None
+        if app is None:
+            fails.append({"signature": "worker-pressure:no-application", "backend": backend, "desc": desc})
+            continue
+        if app.get("end") is None or app["end"] > t_release + 0.5:
+            fails.append({"signature": "waiting-send-not-released:" + release, "backend": backend, "desc": desc, "sends": app["sends"],
+                          "application_ended": app.get("end"), "released_at": t_release, "leftovers": res["leftovers"]})
+        elif res["handler_done"] is None or res["leftovers"]:
+            fails.append({"signature": "handler-not-finished-after-release:" + release, "backend": backend, "desc": desc,
+                          "leftovers": res["leftovers"], "error": res["handler_error"]})
+        elif release == "resume":
+            data = b"".join(d for _, k, d in res["events"] if k == "data" and d)
+            if data.count(b"x") < size or not data.endswith(b"0\r\n\r\n"):
+                fails.append({"signature": "response-not-delivered-after-resume", "backend": backend, "desc": desc, "bytes": len(data)})
+    return desc, fails
+
+
 def run(ctx):
     n = ctx.scale(64, 640, 200)
     base = ctx.seed * 100000 + 50000
@@ -284,6 +327,10 @@ def run(ctx):
         oracle_failures.extend(f)
     for i in range(ctx.scale(80, 300, 100)):
         d, f = ws_h2_pressure(ctx.seed * 7919 + i)
+        descs.append(d)
+        oracle_failures.extend(f)
+    for i in range(ctx.scale(24, 160, 60)):
+        d, f = worker_pressure(ctx.seed * 7919 + i)
         descs.append(d)
         oracle_failures.extend(f)
     dist = {"correspondence_cases": len(cases), "pressure_sessions": len(descs)}
